@@ -204,7 +204,7 @@ class PEval:
         return v
 
     def truth(self, v):
-        if isinstance(v, int):
+        if isinstance(v, (int, float)):
             return v != 0
         if v is None:
             return False
@@ -288,6 +288,8 @@ class PEval:
             return 1 if n['value'] else 0
         if k in ('CXXNullPtrLiteralExpr', 'GNUNullExpr'):
             return None
+        if k == 'FloatingLiteral':
+            return float(n['value'])
         if k == 'StringLiteral':
             from props.c04 import unescape_c
             return Lit(unescape_c(n.get('value')))
@@ -305,8 +307,16 @@ class PEval:
                 if ck == 'PointerToBoolean':
                     return 1 if v is not None else 0
                 return self.wrap(v, t) if isinstance(v, int) else (1 if self.truth(v) else 0) if ck == 'IntegralToBoolean' else v
-            if ck in ('FloatingToIntegral', 'IntegralToFloating', 'FloatingCast', 'FloatingToBoolean'):
-                raise Undecided('floating point conversion')
+            if ck == 'IntegralToFloating':
+                return float(v) if isinstance(v, int) else v
+            if ck == 'FloatingCast':
+                return v
+            if ck == 'FloatingToBoolean':
+                return 1 if v != 0.0 else 0
+            if ck == 'FloatingToIntegral':
+                if not isinstance(v, float) or v != v or abs(v) >= 2.0 ** 64:
+                    raise Fault('conversion of the floating value %r to an integer is undefined' % (v,))
+                return self.wrap(int(v), t)
             if ck == 'ConstructorConversion' or ck == 'UserDefinedConversion':
                 return v
             return v
@@ -362,6 +372,8 @@ class PEval:
             v = self.ev(sub, env, depth)
             if op == '!':
                 return 0 if self.truth(v) else 1
+            if isinstance(v, float) and op in ('-', '+'):
+                return -v if op == '-' else v
             if not isinstance(v, int):
                 raise Undecided('unary %s on a non-integer' % op)
             return self.wrap({'-': -v, '+': v, '~': ~v}[op], t)
@@ -494,6 +506,13 @@ class PEval:
             ct = (n.get('computeResultType') or {}).get('desugaredQualType') or (n.get('computeResultType') or {}).get('qualType') or t
             if isinstance(cur, Lit) and isinstance(rhs, int) and op in ('+=', '-='):
                 v = Lit(cur.data, cur.off + (rhs if op == '+=' else -rhs))
+            elif isinstance(cur, float) or isinstance(rhs, float):
+                if not isinstance(cur, (int, float)) or not isinstance(rhs, (int, float)) or op not in ('+=', '-=', '*=', '/='):
+                    raise Undecided('floating compound assignment')
+                fa, fb = float(cur), float(rhs)
+                v = {'+=': fa + fb, '-=': fa - fb, '*=': fa * fb, '/=': fa / fb if fb else 0.0}[op]
+                if int_type_info(dtype(a_n)):
+                    v = self.wrap(int(v), dtype(a_n))
             else:
                 if not isinstance(cur, int) or not isinstance(rhs, int):
                     raise Undecided('compound assignment on non-integers')
@@ -523,6 +542,16 @@ class PEval:
         if isinstance(a, tuple) and isinstance(b, tuple) and a and b and a[0] == 'iter' and b[0] == 'iter':
             if op in ('==', '!='):
                 return 1 if ((a[2] == b[2]) == (op == '==')) else 0
+        if isinstance(a, float) or isinstance(b, float):
+            if isinstance(a, (int, float)) and isinstance(b, (int, float)):
+                fa, fb = float(a), float(b)
+                if op in ('<', '>', '<=', '>=', '==', '!='):
+                    return 1 if {'<': fa < fb, '>': fa > fb, '<=': fa <= fb, '>=': fa >= fb, '==': fa == fb, '!=': fa != fb}[op] else 0
+                if op == '/' and fb == 0.0:
+                    raise Undecided('floating division by zero')
+                if op in ('+', '-', '*', '/'):
+                    return {'+': fa + fb, '-': fa - fb, '*': fa * fb, '/': fa / fb if fb else 0.0}[op]
+            raise Undecided('floating operator %s' % op)
         if not isinstance(a, int) or not isinstance(b, int):
             raise Undecided('operator %s on non-constants' % op)
         return self.arith(op, a, b, t, n)
